@@ -1390,6 +1390,7 @@ func compileTableExpr(context *funcContext, reg int, ex *ast.TableExpr, ec *expc
 	regbase := reg
 
 	arraycount := 0
+	pending := 0 // positional items compiled into registers and not yet stored by a SETLIST
 	lastvararg := false
 	for i, field := range ex.Fields {
 		islast := i == len(ex.Fields)-1
@@ -1400,6 +1401,7 @@ func compileTableExpr(context *funcContext, reg int, ex *ast.TableExpr, ec *expc
 			} else {
 				reg += compileExpr(context, reg, field.Value, ecnone(0))
 				arraycount += 1
+				pending += 1
 			}
 		} else {
 			regorg := reg
@@ -1414,22 +1416,16 @@ func compileTableExpr(context *funcContext, reg int, ex *ast.TableExpr, ec *expc
 			code.AddABC(opcode, tablereg, b, c, sline(ex))
 			reg = regorg
 		}
-		flush := arraycount % FieldsPerFlush
-		if (arraycount != 0 && (flush == 0 || islast)) || lastvararg {
+		if pending == FieldsPerFlush || (islast && pending > 0) || lastvararg {
 			reg = regbase
-			num := flush
-			if num == 0 {
-				num = FieldsPerFlush
-			}
-			c := (arraycount-1)/FieldsPerFlush + 1
-			if lastvararg && flush == 0 {
-				// every positional item before the open-ended one was flushed already: its values start the next batch
-				c = arraycount/FieldsPerFlush + 1
-			}
-			b := num
-			if islast && isVarArgReturnExpr(field.Value) {
+			// the items stored so far fill whole batches; this SETLIST is the next one
+			c := (arraycount-pending)/FieldsPerFlush + 1
+			b := pending
+			if lastvararg {
+				// open-ended: the pending items and every result of the last, positional, call or '...'
 				b = 0
 			}
+			pending = 0
 			line := field.Value
 			if field.Key != nil {
 				line = field.Key
